@@ -131,7 +131,7 @@ Definition decode_pathname (u : url) : list N :=
 Definition pathname_has_windows_drive (p : list N) : bool :=
   match p with
   | a :: b :: c :: rest =>
-      is_win_slash a && is_drive b c && match rest with [] => true | d :: _ => is_win_slash d end
+      is_win_slash a && is_ascii_alpha b && (c =? 58) && match rest with [] => true | d :: _ => is_win_slash d end
   | _ => false
   end.
 
